@@ -215,7 +215,7 @@ def gen_cases(rec, rng, tier):
     if rec.shard == 1:
         for (name, RP, eps) in pdag.shipped_pdas(env.REPO):
             yield {'cls': 'shipped_' + name, 'ref': RP, 'n': 4, 'eps': eps}
-    for _ in range(200 if thorough else 70):
+    for _ in range(600 if thorough else 70):
         gamma = rng.choice([None, None, '$X', '$@#', 'XY∅'[:rng.randint(1, 3)]])
         RP = pdag.random_pda(rng, rng.randint(1, 4), rng.randint(1, 2), rng.randint(0, 3), rng.randint(1, 8), gamma=gamma, p_eps=rng.choice([0.15, 0.35, 0.6]))
         yield {'cls': 'random_pda' + ('' if gamma is None else '_marker_symbols'), 'ref': RP, 'n': n, 'eps': rng.choice(['', '_', 'ε'])}
